@@ -94,6 +94,9 @@ pub fn compare_structure(s: &Sprite, f: &AsepriteFile) -> Result<(), Failure> {
         ensure!(rep == want, "tag-repeat", "tag {} repeat {:?} != {:?}", i, rep, want);
     }
     ensure!(f.get_tag(tags.len() as u32).is_none() && f.get_tag(u32::MAX).is_none(), "get-tag", "get_tag out of range is Some");
+    for probe in [65536u32, 65536 + tags.len() as u32, 0x1_0000_u32.wrapping_mul(3), 1 << 31] {
+        ensure!(f.get_tag(probe).is_none(), "get-tag", "get_tag({}) is Some with {} tags", probe, tags.len());
+    }
     let mut tnames: Vec<&str> = tags.iter().map(|t| t.name.as_str()).collect();
     tnames.sort();
     tnames.dedup();
